@@ -515,7 +515,18 @@ func (agent *DCPAgent) GetVbucketSeqnos(serverIdx int, state memd.VbucketState, 
 		var out []VbSeqNoEntry
 		for v, row := range c.VbMap {
 			if row[0] == node {
-				out = append(out, VbSeqNoEntry{VbID: uint16(v), SeqNo: SeqNo(c.Vb[v].High)})
+				high := c.Vb[v].High
+				if opts.FilterOptions != nil && opts.FilterOptions.CollectionID != 0 {
+					// the high seqno OF THAT COLLECTION (what a collection-filtered query answers): items of other
+					// collections - which a filtered stream sees as seqno-advanced - do not count
+					high = 0
+					for _, p := range c.Vb[v].Log {
+						if p.CollectionID == opts.FilterOptions.CollectionID && p.Kind != "marker" && p.Kind != "seqadv" && p.Seq > high {
+							high = p.Seq
+						}
+					}
+				}
+				out = append(out, VbSeqNoEntry{VbID: uint16(v), SeqNo: SeqNo(high)})
 			}
 		}
 		return out, nil
